@@ -655,6 +655,17 @@ class TextXVisitor(RRELVisitor):
             rule_name, root_rule = children
             rule_params = {}
 
+        if rule_name.startswith("__asgn"):
+            # Assignments are kept in the parser model under such names.
+            line, col = self.grammar_parser.pos_to_linecol(node.position)
+            raise TextXSemanticError(
+                f'Rule name "{rule_name}" is reserved (names starting with '
+                f'"__asgn" are used internally).',
+                line,
+                col,
+                filename=self.metamodel.file_name,
+            )
+
         if root_rule.rule_name.startswith("__asgn") or (
             rule_params and not isinstance(root_rule, Sequence)
         ):
